@@ -21,7 +21,9 @@ ATTACH = {'ATTACHMENT': 'attachment', 'APPENDIX': 'appendix', 'SCHEDULE': 'sched
 JUDGMENT_PARTS = ['INTRODUCTION', 'BACKGROUND', 'ARGUMENTS', 'REMEDIES', 'MOTIVATION', 'DECISION']
 STD_INLINE = {'abbr': ('abbr', {'title': ''}), 'def': ('def', {}), 'em': ('inline', {'name': 'em'}), 'inline': ('inline', {'name': 'inline'}),
               'term': ('term', {'refersTo': ''}), '+': ('ins', {}), '-': ('del', {})}
-WORDS = ['alpha', 'beta', 'gamma', 'delta', 'one', 'two', 'lorem', 'ipsum', 'été', 'אבג', 'مرحبا', '日本', '\U0001F600', 'x', 'y1', '(a)', 'semi;colon', 'q?']
+WORDS = ['alpha', 'beta', 'gamma', 'delta', 'one', 'two', 'lorem', 'ipsum', 'été', 'אבג', 'مرحبا', '日本', '\U0001F600', 'x', 'y1', '(a)', 'semi;colon', 'q?',
+         # single characters that are markup only when doubled, digits of another script, a colon and a dash inside a word, percent, quotes
+         'A_Member', 'a/b', '2*3', 'co-op', 'Mr:', '50%', "o'clock", '"quoted"', '\u0663\u0664', 'a.b.c', 'x{y', 'z}w']
 
 
 def E(tag, attrs=None, *kids):
